@@ -49,10 +49,11 @@ class Programs:
         self.setup_writer()
         self.extract_wall = time.time() - t0 - self.mir_wall
 
-    def new_exec(self, extra_env=()):
+    def new_exec(self, extra_env=(), drops=True):
         ex = Exec(self.prog, env=list(extra_env) + self.env.handlers())
         ex.deref_hook = self.env.deref_hook; ex.store_hook = self.env.store_hook
         ex.rec_layout = self.rec
+        ex.inline_drops = drops     # scope guards: a user Drop impl with shared-memory events is part of the program
         self.execs = getattr(self, 'execs', []) + [ex]
         return ex
 
@@ -71,7 +72,7 @@ class Programs:
         def mmap_new(ex, st, callee, args, fn):
             return Enum(0, {'Ok': Struct([Struct([Ptr('seg', 0), segsize])])})
 
-        ex = self.new_exec([(r'(^|::)FdGuard::new$', fd_new), (r'(^|::)MmapGuard::new$', mmap_new)])
+        ex = self.new_exec([(r'(^|::)FdGuard::new$', fd_new), (r'(^|::)MmapGuard::new$', mmap_new)], drops=False)
         ex.side.append(z3.And(segsize >= 0, segsize < 2 ** 32))
         new = prog.find1('new', self_ty='ShmReader')
         outs = ex.run(new, [Opaque('path')], State())
